@@ -23,10 +23,11 @@ func FToBaseStr(num float64, radix int) string {
 	ldfloor := int64(dfloor)
 	var intDigits string
 	if dfloor == float64(ldfloor) {
-		if negative {
-			ldfloor = -ldfloor
-		}
 		intDigits = strconv.FormatInt(ldfloor, radix)
+		if negative {
+			// not FormatInt(-ldfloor): the integer part of -1 < num < 0 is -0
+			intDigits = "-" + intDigits
+		}
 	} else {
 		floorBits := math.Float64bits(num)
 		exp := int(floorBits>>exp_shiftL) & exp_mask_shifted
